@@ -40,7 +40,7 @@ CLAIMS = {
             "§5 C08, §11.3", "error-edge path analysis over MIR"),
     "C09": ("LCK-3 no re-entrant DB-mutex acquisition, LCK-4/LCK-4b waits in re-testing loops that leave on the sticky error, LCK-5/LCK-6 nested "
             "lock classes, ORD-10 worker epilogue, PAIR-4 schedule flag, ORD-11 writer hand-off, ORD-12 Drop order, PAIR-10, ORD-17, GRD-14 "
-            "non-empty manual compaction inputs, ORD-19 manual request withdrawn only after the background work finished, GRD-25, PAIR-16, GRD-9 non-blocking lock, TRIG-1 a writer stalled for level-0 relief has a due compaction (evaluated trigger constants)", "§5 C09, §11.3", "lock-region dataflow + call-graph summaries + must-pass-through"),
+            "non-empty manual compaction inputs, ORD-19 manual request withdrawn only after the background work finished, GRD-25, PAIR-16, GRD-9 non-blocking lock, PROG-2 rotation only of a non-empty memtable, ORD-12 shared-worker shutdown, TRIG-1 a writer stalled for level-0 relief has a due compaction (evaluated trigger constants)", "§5 C09, §11.3", "lock-region dataflow + call-graph summaries + must-pass-through"),
     "C10": ("ROLE-1 smallest/largest fidelity, ROLE-2 writer/reader field-order agreement of the manifest codec, ROLE-3 levels, ROLE-5 version "
             "builder ordering and deletion, PAIR-3, PAIR-12 (file, level) pairs, OWN-8 file-number counter, ERR-1 subset / ORD-3 / GRD-4 for "
             "half-written tables", "§5 C10, §11.3", "role-colour dataflow"),
